@@ -89,7 +89,7 @@ func init() {
 			Pat: "ret(&DeviceAuthorizationResponse{DeviceCode: $dc, UserCode: $uc, VerificationURI: $v.String(), VerificationURIComplete: $v.String(), ExpiresIn: conv(int, $cfg.Lifetime / time.Second), Interval: conv(int, $cfg.PollInterval / time.Second)}, nil)",
 			Req: append([]string{`eq($v.RawQuery, "user_code=" + $uc)`}, deviceAuthBinding...)},
 		{ID: "E8.device.auth.returned.var", AltOf: "E8.device.auth.returned", Fn: "op.createDeviceAuthorization", P: []string{"ctx", "req", "clientID", "o"}, Kind: "ret ok", Pat: "ret($resp, nil)", Not: "ret(&DeviceAuthorizationResponse{}, nil)", Max: 1,
-			Req: []string{"ok(_.StoreDeviceAuthorization(_, $clientID, _, _, _, $req.Scopes))", "eq($resp.VerificationURIComplete, _)"}},
+			Req: []string{"ok(_.StoreDeviceAuthorization(_, $clientID, _, _, _, $req.Scopes))", "eq($resp.VerificationURIComplete, _) || eq($resp, &DeviceAuthorizationResponse{VerificationURIComplete: _})"}},
 		{ID: "E8.device.auth.returned.lit", AltOf: "E8.device.auth.returned", Fn: "op.createDeviceAuthorization", P: []string{"ctx", "req", "clientID", "o"}, Kind: "ret ok", Pat: "ret(&DeviceAuthorizationResponse{VerificationURIComplete: _}, nil)", Max: 1,
 			Req: []string{"ok(_.StoreDeviceAuthorization(_, $clientID, _, _, _, $req.Scopes))"}},
 		{ID: "E8.device.auth.response-built-once", Fn: "op.createDeviceAuthorization", Kind: "store", Pat: "store(_, &DeviceAuthorizationResponse{})", Max: 1, Opt: true},
